@@ -15,7 +15,13 @@ import (
 // info. inodemap is used to calculate hardlinks over a series of
 // mkstat calls and maps inode to the canonical (aka "first") path for
 // a set of hardlinks to that inode.
-func mkstat(path, relpath string, fi os.FileInfo, inodemap map[uint64]string) (*types.Stat, error) {
+// inodeKey identifies an inode: inode numbers are only unique within one
+// file system, and a walk crosses mount points.
+type inodeKey struct {
+	dev, ino uint64
+}
+
+func mkstat(path, relpath string, fi os.FileInfo, inodemap map[inodeKey]string) (*types.Stat, error) {
 	relpath = filepath.ToSlash(relpath)
 
 	stat := &types.Stat{
